@@ -1,4 +1,4 @@
-SPECIFICATION Spec
+SPECIFICATION GenSpec
 CONSTANTS
   Modes = {"btc", "legacy", "compact"}
   Gaps = {2, 3}
@@ -7,6 +7,7 @@ CONSTANTS
   NRand = 200
   KeepHist = TRUE
   KF_PowGrandparentBits = FALSE
+  Sides = {}
 CONSTRAINT Dump
 VIEW View
 CHECK_DEADLOCK FALSE
